@@ -178,6 +178,16 @@ const SPECIAL_STRINGS: &[&str] = &[
     "Hello World foo bar",
     "\u{0}\u{7f}",
     "a\u{300}e\u{301}",
+    // characters whose case mapping changes the UTF-8 length (first position and inside)
+    "\u{131}stanbul \u{17f}et \u{fb01}ne",
+    "\u{149} \u{1f0} \u{390} \u{df}",
+    "\u{130}stanbul \u{130}",
+    "\u{1c5} \u{1c6}x",
+    "\u{1F468}\u{200D}\u{1F469}\u{200D}\u{1F467} family",
+    "\u{fb03}",
+    "\u{23a}\u{2c65}",
+    "\u{10400}\u{10428} \u{df}a",
+    "\u{17f}",
 ];
 
 pub fn gen_string(rng: &Rng) -> String {
@@ -185,7 +195,7 @@ pub fn gen_string(rng: &Rng) -> String {
         rng.pick(SPECIAL_STRINGS).to_string()
     } else {
         let n = rng.below(12);
-        let alphabet: Vec<char> = "ab<>&\"' \u{e9}\u{1F389}\n{%}".chars().collect();
+        let alphabet: Vec<char> = "ab<>&\"' \u{e9}\u{1F389}\n{%}\u{131}\u{17f}\u{fb01}\u{130}\u{df}\u{149}\u{301}".chars().collect();
         (0..n).map(|_| rng.pick(&alphabet)).collect()
     }
 }
